@@ -58,12 +58,14 @@ def unionStep (st : Bool × Bool) (r : Rel) : Bool × Bool :=
 def unionResult (st : Bool × Bool) : Rel :=
   if st.2 then .is else if st.1 then .maybe else .isnt
 
-/-- the field loop of the Struct case of `Is` (lengths already known to be equal) -/
+/-- the field loop of the Struct case of `Is` (lengths already known to be equal).  `Ty.struct` keeps names and
+    types in two lists; should there be fewer names than types (never produced by the codec or by the model)
+    the missing names read as "no name" on both sides. -/
 def structLoop (f : Ty → Ty → Rel) : List Name → List Ty → List Name → List Ty → Rel
-  | n :: ns, t :: ts, n' :: ns', t' :: ts' =>
-    if n ≠ n' then .isnt
+  | ns, t :: ts, ns', t' :: ts' =>
+    if ns.head? ≠ ns'.head? then .isnt
     else if (f t t').toNat < 2 then .isnt
-    else structLoop f ns ts ns' ts'
+    else structLoop f ns.tail ts ns'.tail ts'
   | _, _, _, _ => .is
 
 /-- the element loop of the Tuple case of `Is` -/
@@ -71,32 +73,35 @@ def tupleLoop (f : Ty → Ty → Rel) : List Ty → List Ty → Rel
   | t :: ts, t' :: ts' => if (f t t').toNat < 2 then .isnt else tupleLoop f ts ts'
   | _, _ => .is
 
-/-- `Type.Is` with fuel. -/
+/-- the body of `Type.Is`; `self` stands for the recursive calls. -/
+def isStep (self : Ty → Ty → Rel) (t other : Ty) : Rel :=
+  if other.isAny then .is
+  else match t with
+    | .union alts =>
+      unionResult (alts.foldl (fun st a => unionStep st (self a other)) (false, true))
+    | _ =>
+      match other with
+      | .union oalts => oalts.foldl (fun out a => Rel.max out (self t a)) .isnt
+      | _ =>
+        match t, other with
+        | .listNil, .listNil => .is
+        | .listNil, .list _ => .is
+        | .list _, .listNil => .isnt
+        | .list e, .list e' => if (self e e').toNat < 2 then .isnt else .is
+        | .listNil, _ => .isnt
+        | .list _, _ => .isnt
+        | .struct ns ts, .struct ns' ts' =>
+          if ts.length ≠ ts'.length then .isnt else structLoop self ns ts ns' ts'
+        | .struct _ _, _ => .isnt
+        | .tuple ts, .tuple ts' =>
+          if ts.length ≠ ts'.length then .isnt else tupleLoop self ts ts'
+        | .tuple _, _ => .isnt
+        | a, b => if a.id = b.id then .is else .isnt
+
+/-- `Type.Is` with fuel (structural recursion on the fuel, so that closed terms reduce in the kernel). -/
 def isF : Nat → Ty → Ty → Rel
   | 0, _, _ => .isnt
-  | n + 1, t, other =>
-    if other.isAny then .is
-    else match t with
-      | .union alts =>
-        unionResult (alts.foldl (fun st a => unionStep st (isF n a other)) (false, true))
-      | _ =>
-        match other with
-        | .union oalts => oalts.foldl (fun out a => Rel.max out (isF n t a)) .isnt
-        | _ =>
-          match t, other with
-          | .listNil, .listNil => .is
-          | .listNil, .list _ => .is
-          | .list _, .listNil => .isnt
-          | .list e, .list e' => if (isF n e e').toNat < 2 then .isnt else .is
-          | .listNil, _ => .isnt
-          | .list _, _ => .isnt
-          | .struct ns ts, .struct ns' ts' =>
-            if ts.length ≠ ts'.length then .isnt else structLoop (isF n) ns ts ns' ts'
-          | .struct _ _, _ => .isnt
-          | .tuple ts, .tuple ts' =>
-            if ts.length ≠ ts'.length then .isnt else tupleLoop (isF n) ts ts'
-          | .tuple _, _ => .isnt
-          | a, b => if a.id = b.id then .is else .isnt
+  | n + 1, t, other => isStep (isF n) t other
 
 /-- `Type.Is` -/
 def is (t other : Ty) : Rel := isF (t.size + other.size) t other
@@ -173,30 +178,33 @@ def structField (f : Ty → Ty → Option Ty) (ns1 : List Name) (ts1 : List Ty) 
   | none, some b => f b .null
   | none, none => none   -- unreachable: `name` comes from one of the two key sets
 
+/-- the body of `TypeSum`; `self` stands for the recursive calls (`none` = out of fuel). -/
+def typeSumStep (self : Ty → Ty → Option Ty) (t1 t2 : Ty) : Option Ty :=
+  if t1.is t2 = .is then some t2
+  else if t2.is t1 = .is then some t1
+  else match t1, t2 with
+    | .struct ns1 ts1, .struct ns2 ts2 =>
+      let names := sortNames (ns1 ++ ns2)
+      (optMap (structField self ns1 ts1 ns2 ts2) names).map (fun tys => .struct names tys)
+    | .listNil, .listNil => some .listNil        -- unreachable (Is)
+    | .listNil, .list e => some (.list e)        -- unreachable (Is)
+    | .list e, .listNil => some (.list e)        -- unreachable (Is)
+    | .list e1, .list e2 => (self e1 e2).map .list
+    | .tuple ts1, .tuple ts2 =>
+      (if ts1.length > ts2.length then tupleMerge self ts1 ts2
+       else tupleMerge self ts2 ts1).map .tuple
+    | .union alts1, .union alts2 => optFoldl self (.union alts1) alts2
+    | t1, .union alts2 => self (.union alts2) t1
+    | .union alts, t2 =>
+      if alts.any (fun a => a.id = t2.id) then
+        (mergeFirst (fun a => self a t2) t2.id alts).map .union
+      else some (.union (sortById (alts ++ [t2])))
+    | t1, t2 => some (.union (sortById [t1, t2]))
+
 /-- `TypeSum` with fuel; `none` = fuel exhausted. -/
 def typeSumF : Nat → Ty → Ty → Option Ty
   | 0, _, _ => none
-  | n + 1, t1, t2 =>
-    if t1.is t2 = .is then some t2
-    else if t2.is t1 = .is then some t1
-    else match t1, t2 with
-      | .struct ns1 ts1, .struct ns2 ts2 =>
-        let names := sortNames (ns1 ++ ns2)
-        (optMap (structField (typeSumF n) ns1 ts1 ns2 ts2) names).map (fun tys => .struct names tys)
-      | .listNil, .listNil => some .listNil        -- unreachable (Is)
-      | .listNil, .list e => some (.list e)        -- unreachable (Is)
-      | .list e, .listNil => some (.list e)        -- unreachable (Is)
-      | .list e1, .list e2 => (typeSumF n e1 e2).map .list
-      | .tuple ts1, .tuple ts2 =>
-        (if ts1.length > ts2.length then tupleMerge (typeSumF n) ts1 ts2
-         else tupleMerge (typeSumF n) ts2 ts1).map .tuple
-      | .union alts1, .union alts2 => optFoldl (typeSumF n) (.union alts1) alts2
-      | t1, .union alts2 => typeSumF n (.union alts2) t1
-      | .union alts, t2 =>
-        if alts.any (fun a => a.id = t2.id) then
-          (mergeFirst (fun a => typeSumF n a t2) t2.id alts).map .union
-        else some (.union (sortById (alts ++ [t2])))
-      | t1, t2 => some (.union (sortById [t1, t2]))
+  | n + 1, t1, t2 => typeSumStep (typeSumF n) t1 t2
 
 /-- default fuel: the recursion of `TypeSum` descends in both arguments at once (with at most one
     argument swap and one `…, Null` call per level). -/
@@ -207,6 +215,14 @@ def typeSum (a b : Ty) : Option Ty := typeSumF (sumFuel a b) a b
 
 /-! ### ShapeCompatible: the sum never merges two structs with different field lists or two tuples of different length -/
 
+/-- the union/union loop `out = TypeSum(out, alternative)`: every step is shape compatible -/
+def foldOk (sum : Ty → Ty → Option Ty) (ok : Ty → Ty → Bool) : Ty → List Ty → Bool
+  | _, [] => true
+  | out, alt :: alts =>
+    ok out alt && (match sum out alt with
+      | some out' => foldOk sum ok out' alts
+      | none => false)
+
 def strictSortedNames : List Name → Bool
   | [] => true
   | [_] => true
@@ -216,33 +232,32 @@ def all2 {α} (f : α → α → Bool) : List α → List α → Bool
   | a :: as, b :: bs => f a b && all2 f as bs
   | _, _ => true
 
+/-- the body of `shapeOkF`, following `typeSumStep` case by case -/
+def shapeOkStep (sum : Ty → Ty → Option Ty) (self : Ty → Ty → Bool) (t1 t2 : Ty) : Bool :=
+  if t1.is t2 = .is then true
+  else if t2.is t1 = .is then true
+  else match t1, t2 with
+    | .struct ns1 ts1, .struct ns2 ts2 =>
+      decide (ns1 = ns2) && strictSortedNames ns1 && decide (ns1.length = ts1.length) && decide (ns2.length = ts2.length)
+        && all2 self ts1 ts2
+    | .listNil, .listNil => true
+    | .listNil, .list _ => true
+    | .list _, .listNil => true
+    | .list e1, .list e2 => self e1 e2
+    | .tuple ts1, .tuple ts2 => decide (ts1.length = ts2.length) && all2 self ts2 ts1
+    | .union alts1, .union alts2 => foldOk sum self (.union alts1) alts2
+    | t1, .union alts2 => self (.union alts2) t1
+    | .union alts, t2 =>
+      match alts.find? (fun a => a.id = t2.id) with
+      | some a => self a t2
+      | none => true
+    | _, _ => true
+
 /-- `shapeOkF n a b`: while computing `typeSumF n a b` every struct/struct merge is between structs with the
     same, strictly sorted field-name list and every tuple/tuple merge is between tuples of the same length. -/
 def shapeOkF : Nat → Ty → Ty → Bool
   | 0, _, _ => false
-  | n + 1, t1, t2 =>
-    if t1.is t2 = .is then true
-    else if t2.is t1 = .is then true
-    else match t1, t2 with
-      | .struct ns1 ts1, .struct ns2 ts2 =>
-        decide (ns1 = ns2) && strictSortedNames ns1 && decide (ns1.length = ts1.length) && decide (ns2.length = ts2.length)
-          && all2 (shapeOkF n) ts1 ts2
-      | .listNil, .listNil => true
-      | .listNil, .list _ => true
-      | .list _, .listNil => true
-      | .list e1, .list e2 => shapeOkF n e1 e2
-      | .tuple ts1, .tuple ts2 => decide (ts1.length = ts2.length) && all2 (shapeOkF n) ts2 ts1
-      | .union alts1, .union alts2 =>
-        (alts2.foldl (fun (st : Option Ty × Bool) alt =>
-          match st.1 with
-          | some out => (typeSumF n out alt, st.2 && shapeOkF n out alt)
-          | none => (none, false)) (some (.union alts1), true)).2
-      | t1, .union alts2 => shapeOkF n (.union alts2) t1
-      | .union alts, t2 =>
-        match alts.find? (fun a => a.id = t2.id) with
-        | some a => shapeOkF n a t2
-        | none => true
-      | _, _ => true
+  | n + 1, t1, t2 => shapeOkStep (typeSumF n) (shapeOkF n) t1 t2
 
 def shapeOk (a b : Ty) : Bool := shapeOkF (sumFuel a b) a b
 
